@@ -1,11 +1,46 @@
-import TinysetModel.Proofs.Consts
-/-! C04 — see /verif/properties.jsonl.  Theorems for this property are being added; the ones
-below are the obligations checked so far. -/
+import TinysetModel.Proofs.IterSpec
+import TinysetModel.Proofs.CfgInst
+import TinysetModel.Model.Ops
+/-! C04 — iteration yields every member exactly once and nothing else.
+`elems c r` is the abstraction every other theorem speaks about (membership = `∈ elems`); the
+theorems here say that the *iterator code* (`Model/Iter.lean`: `cursorOf`, `next`) produces exactly
+that list, never errs (`.ok`: the `sz_left` counter never underflows, no index out of range), and
+keeps answering `none` once exhausted — for every well-formed representation of every layout. -/
 namespace C04
 open SC
 
-/-- the model's constants are the ones in the current source -/
-theorem consts_match : TinyC.codec64.splits = Gen.bitsplits64 ∧ TinyC.codec32.splits = Gen.bitsplits32 :=
-  ⟨bitsplits64_match, bitsplits32_match⟩
+variable {c : Cfg}
+
+/-- repeatedly calling `next` on a fresh cursor yields exactly `elems`, in order, without error -/
+theorem iter_yields_elems (ok : CfgOK c) {r : Rp} (wf : WF c r) :
+    drainFrom c r ((elems c r).length + 1) (cursorOf r) = .ok (elems c r) := drain_eq_elems ok wf
+
+/-- from any position `j`: the cursor exists (no error on the way), its counter is exact, and it yields the rest -/
+theorem iter_from_position (ok : CfgOK c) {r : Rp} (wf : WF c r) (j : Nat) :
+    ∃ ck, advance c r j (cursorOf r) = .ok ck ∧ ck.szLeft = (elems c r).length - j ∧
+      drainFrom c r ((elems c r).length + 1) ck = .ok ((elems c r).drop j) := advance_drain ok wf j
+
+/-- one step: the `j`-th call of `next` returns the `j`-th member (or `none` past the end) -/
+theorem next_is_jth (ok : CfgOK c) {r : Rp} (wf : WF c r) {j : Nat} {ck : Cursor}
+    (h : advance c r j (cursorOf r) = .ok ck) :
+    ∃ ck', next c r ck = .ok ((elems c r)[j]?, ck') ∧ advance c r (j + 1) (cursorOf r) = .ok ck' :=
+  next_after ok wf h
+
+/-- an exhausted iterator keeps returning `None` -/
+theorem exhausted_stays_none (ok : CfgOK c) {r : Rp} (wf : WF c r) {j : Nat} (hj : (elems c r).length ≤ j)
+    {ck : Cursor} (h : advance c r j (cursorOf r) = .ok ck) :
+    ∃ ck', next c r ck = .ok (none, ck') ∧ ck'.szLeft = 0 ∧
+      ∃ ck'', next c r ck' = .ok (none, ck'') ∧ ck''.szLeft = 0 := exhausted ok wf hj h
+
+/-- `drain()` empties the set at once (whatever happens to the iterator) and hands out exactly the members;
+    the emptied set is well formed, i.e. usable -/
+theorem drain_spec (r : Rp) : (drain c r).1 = .empty ∧ (drain c r).2 = elems c r ∧ WF c (drain c r).1 ∧
+    elems c (drain c r).1 = [] := ⟨rfl, rfl, trivial, rfl⟩
+
+/-- both instances -/
+theorem iter_yields_elems_u64 {r : Rp} (wf : WF cfg64 r) :
+    drainFrom cfg64 r ((elems cfg64 r).length + 1) (cursorOf r) = .ok (elems cfg64 r) := drain_eq_elems cfg64_ok wf
+theorem iter_yields_elems_u32 {r : Rp} (wf : WF cfg32 r) :
+    drainFrom cfg32 r ((elems cfg32 r).length + 1) (cursorOf r) = .ok (elems cfg32 r) := drain_eq_elems cfg32_ok wf
 
 end C04
